@@ -1,5 +1,6 @@
 import TmVerif.Model.LRProto
 import TmVerif.Model.LRSound
+import TmVerif.Model.LRXSafe
 import TmVerif.Model.LRRef
 import TmVerif.Model.LRAccept
 import TmVerif.Model.LRComplete
@@ -51,7 +52,11 @@ def validateViable (g : Grammar) (t : Tables) : Option String :=
 def validate (g : Grammar) (t : Tables) (compl : Bool := true) : String :=
   let cert := computePast g t
   if certOk g t cert then
-    if compl then
+    -- rank certificate for chains of reductions (hypothesis of `C01_lr_halts`)
+    let rc := LRX.mkXCert g { t := t, rules := #[] }
+    if !LRX.coreRankOk g t rc then
+      s!"mismatch rank certificate: {LRX.xwfFailure g { t := t, rules := #[] } cert rc} [C01-rank]"
+    else if compl then
       match validateCompl g t with
       | some m => m
       | none => (validateViable g t).getD "ok"
